@@ -130,6 +130,12 @@ func getSetup(proto string, n, t int, seed string) *setup {
 }
 
 func (s *setup) session(sid []byte) *protos.Session {
+	real := s.cfgs
+	if s.cfgs != nil {
+		// every session starts from its own copy of the key material
+		s.cfgs = protos.CloneConfigs(real)
+		defer func() { s.cfgs = real }()
+	}
 	switch {
 	case strings.HasPrefix(s.proto, "toy:"):
 		sh, err := toy.ParseShape(s.proto[4:])
@@ -581,7 +587,19 @@ func (r *runner) fault(sess *protos.Session, label func(party.ID) string) {
 	}
 	done := false
 	altered := map[*protocol.Message]string{}
-	e.LabelEmit = func(inst party.ID, m *protocol.Message) string { return "" }
+	// from the altered round on, everything the cheater sends is suspect: its own state no longer matches what
+	// the recipients of the altered message hold, so whether its later messages verify is left to the real code
+	// (the unaltered original of the altered slot, sent to the other recipients, stays "h": it is byte-identical
+	// to what an honest party would send, and recipients of the two copies must be seen to hold different views)
+	e.LabelEmit = func(inst party.ID, m *protocol.Message) string {
+		if inst != k || m.RoundNumber == 0 {
+			return ""
+		}
+		if int(m.RoundNumber) > r.sc.Round || (int(m.RoundNumber) == r.sc.Round && m.Broadcast != r.sc.B) {
+			return "mut"
+		}
+		return ""
+	}
 	e.OnEmit = func(inst party.ID, m *protocol.Message) bool {
 		if inst != k || m.RoundNumber == 0 {
 			return inst != k
@@ -614,8 +632,11 @@ func (r *runner) fault(sess *protos.Session, label func(party.ID) string) {
 				lbl = "junk"
 			case "round0":
 				lbl = "h"
-			case "nilBV", "wrongBV":
-				lbl = "h"
+			}
+			if sim.SameMsg(mm, m) {
+				r.out.Applicable = false
+				r.out.Why = "this header alteration does not change the message"
+				return true
 			}
 		} else {
 			leaves, err := fault.Leaves(m.Data)
@@ -752,7 +773,9 @@ func main() {
 	defer f.Close()
 	sc := bufio.NewScanner(f)
 	sc.Buffer(make([]byte, 1<<20), 1<<26)
-	// traces are grouped by (proto, n, byz): one file per TLC configuration
+	// traces are grouped by (proto, n, byz): one file per TLC configuration. Everything is flushed after every
+	// scenario, and the id of the scenario in progress is kept in a file, so that a fatal runtime error
+	// (out of memory, stack overflow) in the code under test can be attributed and the run resumed.
 	type group struct {
 		w     *bufio.Writer
 		f     *os.File
@@ -760,12 +783,15 @@ func main() {
 		n     int
 		lines int
 		meta  map[string]interface{}
-		ids   []int // scenario id per trace, in order
-		shB   map[int]bool
-		shM   map[int]bool
 	}
 	groups := map[string]*group{}
-	var outs []outcome
+	of, err := os.Create(fmt.Sprintf("%s/%s_outcomes.jsonl", *outDir, *tag))
+	if err != nil {
+		fatal("%v", err)
+	}
+	defer of.Close()
+	oenc := json.NewEncoder(of)
+	progress := fmt.Sprintf("%s/%s_progress", *outDir, *tag)
 	for sc.Scan() {
 		line := strings.TrimSpace(sc.Text())
 		if line == "" {
@@ -775,8 +801,10 @@ func main() {
 		if err := json.Unmarshal([]byte(line), &s); err != nil {
 			fatal("bad scenario %q: %v", line, err)
 		}
+		os.WriteFile(progress, []byte(fmt.Sprint(s.ID)), 0o644)
 		o, events := run(s, *seed)
-		outs = append(outs, o)
+		oenc.Encode(o)
+		of.Sync()
 		if !o.Applicable {
 			continue
 		}
@@ -787,7 +815,7 @@ func main() {
 			if err != nil {
 				fatal("%v", err)
 			}
-			g = &group{f: fh, w: bufio.NewWriter(fh), shB: map[int]bool{}, shM: map[int]bool{}}
+			g = &group{f: fh, w: bufio.NewWriter(fh)}
 			g.enc = json.NewEncoder(g.w)
 			var honest []string
 			for _, id := range names[:s.N] {
@@ -795,7 +823,7 @@ func main() {
 					honest = append(honest, string(id))
 				}
 			}
-			g.meta = map[string]interface{}{"proto": s.Proto, "n": s.N, "byz": s.Byz, "parties": names[:s.N], "honest": honest, "file": fh.Name()}
+			g.meta = map[string]interface{}{"proto": s.Proto, "n": s.N, "t": s.T, "byz": s.Byz, "parties": names[:s.N], "honest": honest, "file": fh.Name()}
 			groups[gk] = g
 		}
 		if g.n > 0 {
@@ -811,18 +839,15 @@ func main() {
 			g.lines++
 		}
 		g.n++
-		g.ids = append(g.ids, s.ID)
-		su := getSetup(s.Proto, s.N, s.T, *seed)
-		_ = su
+		g.w.Flush()
+		g.meta["traces"] = g.n
+		g.meta["lines"] = g.lines
+		mb, _ := json.Marshal(g.meta)
+		os.WriteFile(g.f.Name()+".meta", mb, 0o644)
 	}
-	var metas []map[string]interface{}
+	os.WriteFile(progress, []byte("done"), 0o644)
 	for _, g := range groups {
 		g.w.Flush()
 		g.f.Close()
-		g.meta["traces"] = g.n
-		g.meta["lines"] = g.lines
-		metas = append(metas, g.meta)
 	}
-	b, _ := json.MarshalIndent(map[string]interface{}{"outcomes": outs, "groups": metas}, "", " ")
-	os.WriteFile(fmt.Sprintf("%s/%s_summary.json", *outDir, *tag), b, 0o644)
 }
